@@ -146,6 +146,8 @@ func (r *Router) handleHTTPRequest(ctx *Context) {
 			if ret := recover(); ret != nil {
 				ctx.Set(CTXRecoverResult, ret)
 				r.OnPanic(ctx)
+				// ensure the response produced by the hook is committed
+				ctx.writer.ensureWriteHeader()
 			}
 		}()
 	}
